@@ -739,12 +739,17 @@ All but the first occurrence will be discarded/removed ...""".format(
             if c > 1:
                 duplicates_to_remove.extend([item] * (c - 1))
 
-        # Actually remove all but the first occurrence of duplicate decays
+        # Actually remove all but the first occurrence of duplicate decays.
+        # NB: list.remove(tree) would remove the first tree that compares *equal*,
+        # which is the wrong one when a decay is redefined with identical content.
+        kept = []
         for tree in reversed(self._parsed_decays):  # type: ignore[arg-type]
             val = tree.children[0].children[0].value
             if val in duplicates_to_remove:
                 duplicates_to_remove.remove(val)
-                self._parsed_decays.remove(tree)  # type: ignore[union-attr]
+            else:
+                kept.append(tree)
+        self._parsed_decays = kept[::-1]
 
     @property
     def number_of_decays(self) -> int:
